@@ -482,6 +482,10 @@ def _pv_cases(ctx):
         w = 2 * np.pi * 30
         K = (_rand_spd(rng, n_, 0.2, 4.0) + eps * rng.standard_normal((n_, n_))) * w * w
         B = (_rand_spd(rng, n_, 0.1, 2.0) + eps * rng.standard_normal((n_, n_))) * (0.04 * w)
+        # units: the same model in mg / mN/m instead of kg / N/m (all three matrices times one factor) has generalized
+        # stiffness far below any absolute tolerance (SolveUnc's rigid-body auto-detection uses |k| < 0.005)
+        units = (1.0, 1.0, 1e-6, 1e-9, 1e4)[it % 5]
+        M, B, K = M * units, B * units, K * units
         bset = rng.permutation(n_)[:r]  # scattered and unordered
         if it % 3 == 0:  # Craig-Bampton form: no b-q stiffness coupling
             q = np.setdiff1d(np.arange(n_), bset)
